@@ -2,7 +2,7 @@
 import numpy as np
 from concurrent.futures import ProcessPoolExecutor
 
-from .. import common as C, gen, scen
+from .. import common as C, gen, scen, translators
 from ..common import tok_f, tok_list
 from ..runner import Check
 from . import drvcommon as D
@@ -91,7 +91,7 @@ def function_level(r):
 
 
 def run():
-    chk = Check("C09", props_modules=["GFO.Props.C09", "GFO.Props.GaSelect", "GFO.Props.SmboRuns", "GFO.Props.DirectSelect"])
+    chk = Check("C09", props_modules=["GFO.Props.C09", "GFO.Props.GaSelect", "GFO.Props.SmboRuns", "GFO.Props.DirectSelect", "GFO.Props.SortPop", "GFO.Gen.PopGenCheck", "GFO.Gen.SmboGenCheck"], gen_steps=(translators.gen_pop, translators.gen_smbo, translators.gen_tracker))
     chk.build_and_audit()
     r = C.rng("C09")
     quick = C.tier() != "thorough"
